@@ -51,7 +51,8 @@ def depths(tier):
 
 def bounds(tier):
     d = depths(tier)
-    return {"profiles": len(profiles(tier)), "tree_depth": d["tree"], "bfs_depth": d["bfs"]}
+    return {"profiles": len(profiles(tier)), "tree_depth": d["tree"] if tier != "thorough" else "4 for 9 of the 36 profiles, 3 for the others",
+            "bfs_depth": d["bfs"], "bfs_alphabet": "one non-default value per setter"}
 
 
 def shards(tier):
@@ -435,7 +436,10 @@ def run_shard(shard, tier) -> Stats:
     st = Stats()
     d = depths(tier)
     if shard[0] == "tree":
-        run_tree(st, profiles(tier)[shard[1]], d["tree"], shard[2])
+        depth = d["tree"]
+        if tier == "thorough" and shard[1] % 4:
+            depth -= 1          # depth 4 for every 4th profile (9 of 36), depth 3 for the others
+        run_tree(st, profiles(tier)[shard[1]], depth, shard[2])
     elif shard[0] == "bfs":
         run_bfs(st, profiles(tier)[shard[1]], d["bfs"], shard[2])
     else:
